@@ -104,6 +104,11 @@ def run(tier, seed):
             # foreign content must be kept as extension content
             inst.extension_attributes['{urn:pyvc:foreign}attr'] = 'fa'
             inst.extension_elements.append(saml2_tophat.ExtensionElement('foreign', namespace='urn:pyvc:foreign', text='ft'))
+            # ... also an attribute that only LOOKS like a declared one: a declared local name, qualified with the
+            # element's own namespace (a different attribute in the XML data model)
+            plain = sorted(k for k in cls.c_attributes if not k.startswith('{'))
+            if plain and getattr(cls, 'c_namespace', None):
+                inst.extension_attributes['{%s}%s' % (cls.c_namespace, plain[0])] = 'qa'
             xml = inst.to_string()
         except Exception as e:
             skipped.append('%s.%s: cannot build/serialise an instance: %r' % (cls.__module__, cls.__name__, e))
@@ -130,7 +135,7 @@ def run(tier, seed):
             continue
         distinct += 1
     return {'name': 'schema_roundtrip', 'label': 'BOUNDED (generic (de)serialisers of C12 exercised natively on generated instances)',
-            'bound': 'all %d schema classes, instance depth %d, list members 2, %d text variants, 1 foreign child + 1 foreign attribute'
+            'bound': 'all %d schema classes, instance depth %d, list members 2, %d text variants, 1 foreign child + 1 foreign attribute + 1 own-namespace-qualified look-alike attribute'
                      % (len(classes), depth, len(TEXTS)),
             'evaluations': n, 'round_trips_identical': distinct, 'not_buildable': skipped[:10], 'n_not_buildable': len(skipped),
             'violations': violations}
